@@ -282,19 +282,16 @@ Definition in_domain (c : ncase) : bool :=
 Definition item_at (s : nst) (id : N) : option item := nthN (s_items (m_f (ns_m s))) id.
 Definition is_func_import_at (s : nst) (k : N) : bool :=
   match nthN (m_imports (ns_m s)) k with Some im => N.eqb (i_sp im) 0 | None => false end.
-(* D25: Module::set_fn_name / imports.set_fn_name pick their target by comparing the FunctionID with
-   imports.num_funcs / with positions in the import vector *)
+(* D25 (what is left of it after the repair of Module::set_fn_name): imports.set_fn_name resolves a FunctionID as "the id-th function entry of the import vector", which is the
+   function's import only for the imports of the parsed module: for an import added or converted after parsing
+   (its id lies behind the local functions) another import, or none, is named; a local id can hit an added import.
+   (ModuleImports has no access to the function vector; Module::set_fn_name goes through the function's import_id.) *)
 Definition d25_at (s : nst) (o : nop) : bool :=
   match o with
-  | NSetFn id _ =>
-      match item_at s id with
-      | Some it => negb (Bool.eqb (is_import it) (id <? s_num (m_f (ns_m s))))
-                   || (is_import it && negb (optN_eqb (it_imp it) (Some id)))
-      | None => false
-      end
   | NImpSetFn id _ =>
       match item_at s id with
-      | Some it => if is_import it then negb (optN_eqb (it_imp it) (Some id)) else is_func_import_at s id
+      | Some it => if is_import it then negb (optN_eqb (it_imp it) (nth_func_import 0 id (m_imports (ns_m s))))
+                   else match nth_func_import 0 id (m_imports (ns_m s)) with Some _ => true | None => false end
       | None => false
       end
   | _ => false
@@ -307,13 +304,6 @@ Definition d21c_at (s : nst) (o : nop) : bool :=
       | Some it => is_local it && match lookup (ns_body s) id with Some _ => true | None => false end
       | None => false
       end
-  | _ => false
-  end.
-(* 201: FunctionBuilder::set_name is ignored by replace_import_in_module *)
-Definition c201_at (s : nst) (o : nop) : bool :=
-  match o with
-  | NEdit (ImportToLocal k _) (Some _) =>
-      is_func_import_at s k && match item_at s k with Some it => is_import it | None => false end
   | _ => false
   end.
 (* 202: imports.set_name on a global import is never emitted (custom_name is only read for function imports) *)
@@ -345,7 +335,6 @@ Definition known_D21b (c : ncase) : bool :=
   existsb (fun kv => moved_in (map_of c SF) (fst kv) || existsb (is_l2i_of (fst kv)) (edits (nh_ops c))) (n_locals (nb_names c)).
 Definition known_D21 (c : ncase) : bool := known_D21a c || known_D21b c || hist_class d21c_at c.
 Definition known_D25 (c : ncase) : bool := hist_class d25_at c.
-Definition known_201 (c : ncase) : bool := hist_class c201_at c.
 Definition known_202 (c : ncase) : bool := hist_class c202_at c.
 (* D06 / D26 (index-space defects of C06 / C09): a deleted item survives in the function vector, so the vector
    position under which a body name is emitted is not the function's index *)
@@ -372,15 +361,15 @@ Definition explain (failed : bool) (c : ncase) (cands : list (N * (ncase -> bool
 Fixpoint dedupN (l : list N) : list N :=
   match l with [] => [] | x :: l' => if existsb (N.eqb x) l' then dedupN l' else x :: dedupN l' end.
 Definition all_classes : list (N * (ncase -> bool)) :=
-  [(21, known_D21); (25, known_D25); (201, known_201); (202, known_202); (6, fun c => known_D06n c || known_D06g c); (26, known_D26n)].
+  [(21, known_D21); (25, known_D25); (202, known_202); (6, fun c => known_D06n c || known_D06g c); (26, known_D26n)].
 Definition failing_classes (c : ncase) : list N :=
   let s := fst (nspec_final c) in
-  explain (naming_panic c) c [(25, known_D25)]
+  explain (naming_panic c) c []
   ++ explain (negb (sp_ret s)) c []
   ++ match no_enc c with
      | None => []
      | Some (e, n) =>
-         explain (negb (fn_sound s e (n_funcs n))) c [(25, known_D25); (201, known_201); (6, known_D06n); (26, known_D26n)]
+         explain (negb (fn_sound s e (n_funcs n))) c [(25, known_D25); (6, known_D06n); (26, known_D26n)]
          ++ explain (negb (fn_kept s e (n_funcs n))) c [(21, hist_class d21c_at); (25, known_D25); (6, known_D06n); (26, known_D26n)]
          ++ explain (negb (ln_sound s e (n_locals n) && ln_kept s e (n_locals n))) c [(21, known_D21b); (6, known_D06n); (26, known_D26n)]
          ++ explain (negb (gn_sound s e (n_globals n))) c [(21, known_D21a); (202, known_202); (6, known_D06g)]
